@@ -2,7 +2,8 @@
   Model/Interp.lean — the scenario (EVL) interpreter over the model: one operation per
   line in, one observation line out.  Total: an unknown or ill-typed line yields `bad-op`.
 -/
-import EnvVerif.Model.Proof
+import EnvVerif.Model.Signature
+import EnvVerif.Model.Conc
 import EnvVerif.Model.Sha256
 namespace EnvVerif
 open Env
@@ -148,7 +149,12 @@ def ZZ := toyDeflate
 
 def showList (es : List Env) : String := " ".intercalate (es.map fun e => dshort e.digest)
 
-def evalAssign (r : Regs) (args : List String) : Option Val :=
+/-- the idealised signature scheme of a scenario: exactly the registered triples verify -/
+def tableSig (facts : List String) : SigScheme where
+  verify key sig msg := facts.contains ("sig " ++ toString key ++ " " ++ hexOfBytes sig.enc ++ " " ++ dhex msg)
+
+def evalAssign (facts : List String) (r : Regs) (args : List String) : Option Val :=
+  let _ := facts
   match args with
   | ["leaf", hx] =>
     match bytesOfHex hx with
@@ -231,6 +237,16 @@ def evalAssign (r : Regs) (args : List String) : Option Val :=
   | ["miscompress", e, other] => do
     let e ← r.env e; let other ← r.env other
     pure (.env (.compressed (compressedOf ZZ (encode other)) e.digest))
+  | ["add_sig", e, sig] => do
+    let e ← r.env e; let sg ← r.env sig
+    match sg with
+    | .leaf c _ => pure (.ofRes (addSignature H e c [] (fun _ => c)))
+    | _ => Option.none
+  | ["add_sig_meta", e, sig, outer, metas] => do
+    let e ← r.env e; let sg ← r.env sig; let ou ← r.env outer; let ms ← envs r metas
+    match sg, ou with
+    | .leaf c _, .leaf oc _ => pure (.ofRes (addSignature H e c ms (fun _ => oc)))
+    | _, _ => Option.none
   | ["decode", hx] => do
     let b ← bytesOfHex hx
     pure (.ofRes (decode H b))
@@ -247,7 +263,7 @@ def evalAssign (r : Regs) (args : List String) : Option Val :=
       | .panic x => .panic x)
   | _ => Option.none
 
-def evalObs (r : Regs) (args : List String) : Option String :=
+def evalObs (facts : List String) (r : Regs) (args : List String) : Option String :=
   match args with
   | ["shape", e] => (r.env e).map shape
   | ["digest", e] => (r.env e).map fun e => dhex e.digest
@@ -290,27 +306,70 @@ def evalObs (r : Regs) (args : List String) : Option String :=
   | ["confirm", e, ts, p] => do
     let e ← r.env e; let ts ← envs r ts; let p ← r.env p
     pure (toString (confirmContainsSet e (ts.map Env.digest) p))
+  | ["has_sig", e, kid] => do
+    let e ← r.env e; let k ← kid.toNat?
+    pure (match hasSignatureFromReturningMetadata H (tableSig facts) k e with
+      | .ok (some m) => "some " ++ dshort m.digest
+      | .ok Option.none => "none"
+      | .err x => "err " ++ x
+      | .panic x => "panic " ++ x)
+  | ["has_sigs", e, kids, thr] => do
+    let e ← r.env e
+    let ks ← (if kids == "-" then some [] else (kids.splitOn ",").mapM String.toNat?)
+    let t ← (if thr == "-" then some Option.none else thr.toNat?.map some)
+    pure (match hasSignaturesFromThreshold H (tableSig facts) ks t e with
+      | .ok b => toString b
+      | .err x => "err " ++ x
+      | .panic x => "panic " ++ x)
+  | "c20-expected" :: op :: phase :: [] => do
+    let p ← (Conc.apiOps.find? (·.1 == op)).map (·.2)
+    let q := Conc.project Conc.repoResource p
+    if phase == "first" then pure (Conc.showProg q)
+    else if phase == "steady" then pure (Conc.showProg (Conc.steady q))
+    else if phase == "full" then pure (Conc.showProg p)
+    else Option.none
+  | "c20-norm" :: rest =>
+    match Conc.parseProg (" ".intercalate rest) with
+    | some p => pure (Conc.showProg p)
+    | Option.none => pure "bad-prog"
+  | "c20-check" :: rest =>
+    match Conc.parseProg (" ".intercalate rest) with
+    | some p => pure s!"ranked={Conc.rankedOf p} lazy={Conc.lazyDisciplined p}"
+    | Option.none => pure "bad-prog"
+  | "c20-deadlock" :: rest =>
+    -- programs separated by `|`; bounded search for a deadlocking schedule (a search aid, not a proof)
+    match ((" ".intercalate rest).splitOn "|").mapM Conc.parseProg with
+    | some ps => pure (match Conc.findDeadlock ps 200000 with
+        | some sched => "deadlock " ++ " ".intercalate (sched.map toString)
+        | Option.none => "no-deadlock-found")
+    | Option.none => pure "bad-prog"
   | ["flags", e] => do
     let e ← r.env e
     pure (s!"node={e.isNode} sa={e.isSubjectAssertion} so={e.isSubjectObscured} obsc={e.isObscured} internal={e.isInternal} nas={e.assertions.length}")
   | _ => Option.none
 
-/-- one line of a scenario; returns the new registers and the output line (`none` for
-blank lines and comments) -/
-def step (r : Regs) (line : String) : Regs × Option String :=
+structure St where
+  regs : Regs := []
+  facts : List String := []
+
+/-- one line of a scenario; returns the new state and the output line (`none` for blank
+lines and comments) -/
+def step (st : St) (line : String) : St × Option String :=
+  let r := st.regs
   let toks := (line.trimAscii.toString.splitOn " ").filter (· != "")
   match toks with
-  | [] => (r, Option.none)
-  | "#" :: _ => (r, Option.none)
-  | ["scenario", id] => ([], some ("scenario " ++ id))
+  | [] => (st, Option.none)
+  | "#" :: _ => (st, Option.none)
+  | ["scenario", id] => ({}, some ("scenario " ++ id))
+  | "fact" :: rest => ({ st with facts := " ".intercalate rest :: st.facts }, some "ok")
   | "obs" :: args =>
-    match evalObs r args with
-    | some s => (r, some s)
-    | none => (r, some "bad-op")
+    match evalObs st.facts r args with
+    | some s => (st, some s)
+    | none => (st, some "bad-op")
   | reg :: "=" :: args =>
-    match evalAssign r args with
-    | some v => (r.set reg v, some (reg ++ " " ++ v.show))
-    | none => (r.set reg (.err "bad-op"), some "bad-op")
-  | _ => (r, some "bad-op")
+    match evalAssign st.facts r args with
+    | some v => ({ st with regs := r.set reg v }, some (reg ++ " " ++ v.show))
+    | none => ({ st with regs := r.set reg (.err "bad-op") }, some "bad-op")
+  | _ => (st, some "bad-op")
 
 end EnvVerif
